@@ -8,6 +8,10 @@ by the design): the permutation `keccakF`, the GOST step function `step`, and th
 helpers (`lane`, `stateBytes`, `w8OfBytes`, `bytesOfW8`, `W8.toNat` — all little-endian, which is
 both the standards' convention and the platform's).  Padding, block splitting, rate/capacity,
 length and checksum are written here independently of the C code.
+
+`PV.Spec.HashXStd` repeats these definitions over `KeccakStd.keccakF` and `GostStd.chi` (written from the
+standards); `PV.Lemmas.HashX.SpecStd` proves the two families of specs equal, so the sharing above is
+no longer a trusted step.
 -/
 namespace PV.HashX.Spec
 open PV.HashX PV.HashX.Keccak
